@@ -10,6 +10,7 @@ import LP.Driver.Alg
 import LP.Driver.Value
 import LP.Driver.Hist
 import LP.Driver.Eval
+import LP.Driver.Infer
 import Std.Data.HashMap
 open LP LP.Driver
 
@@ -45,6 +46,7 @@ def checkLine (line : String) : String × String × Verdict :=
         | "val" => checkVal op args r
         | "hist" => checkHist op args r
         | "ev" => checkEval2 op args r
+        | "inf" => checkInfer op args r
         | "ugcd" => checkUGcd op args r
         | "refs" => checkRefs args r
         | _ => Verdict.skip s!"unknown family {fam}"
